@@ -146,6 +146,43 @@ func filterColumns(row *ovsdb.Row, columns map[string]bool) *ovsdb.Row {
 	return &new
 }
 
+// withDefaultedColumns completes the new row of a modification. Rows are
+// built without the columns that hold their default value, so a column that
+// changed back to its default is missing from the new row and a client
+// overlaying it on the old row would keep the old value. Add those columns,
+// which are named by the modify row, with their empty value.
+func withDefaultedColumns(new *ovsdb.Row, modify *ovsdb.Row) *ovsdb.Row {
+	if new == nil || modify == nil {
+		return new
+	}
+	completed := make(ovsdb.Row, len(*new))
+	for k, v := range *new {
+		completed[k] = v
+	}
+	for column, difference := range *modify {
+		if _, ok := completed[column]; ok {
+			continue
+		}
+		switch difference.(type) {
+		case ovsdb.OvsSet:
+			completed[column] = ovsdb.OvsSet{GoSet: []interface{}{}}
+		case ovsdb.OvsMap:
+			completed[column] = ovsdb.OvsMap{GoMap: map[interface{}]interface{}{}}
+		case ovsdb.UUID:
+			completed[column] = ovsdb.UUID{GoUUID: "00000000-0000-0000-0000-000000000000"}
+		case string:
+			completed[column] = ""
+		case int:
+			completed[column] = 0
+		case float64:
+			completed[column] = float64(0)
+		case bool:
+			completed[column] = false
+		}
+	}
+	return &completed
+}
+
 // requestedColumns returns the set of columns a monitor request names for a
 // table, nil if it names none (RFC7047: all columns are monitored then)
 func requestedColumns(request *ovsdb.MonitorRequest) map[string]bool {
@@ -183,6 +220,9 @@ func (m *monitor) filter(update database.Update) ovsdb.TableUpdates {
 			case ru.Delete() && selectOf(m.request[table]).Delete():
 				if cols != nil && len(cols) == 0 {
 					return nil
+				}
+				if ru.Modify() && ru2.Modify != nil {
+					ru.New = withDefaultedColumns(ru.New, ru2.Modify)
 				}
 				ru.New = filterColumns(ru.New, cols)
 				ru.Old = filterColumns(ru.Old, cols)
